@@ -260,6 +260,71 @@ class Reconfigured(object):
         return self.r
 
 
+# names whose upper / lower / folded spellings are not in one-to-one correspondence (str.upper() maps 'ß' to 'SS', the
+# Kelvin sign folds to 'k', dotted / dotless i, ligatures, final sigma)
+UNI_POOL = ("straße", "STRASSE", "\u212a", "k", "\u0131", "I", "\u0130", "i\u0307", "\u01c6", "\u01c5", "\ufb01", "FI", "\u0149", "\u02bcN",
+            "\u03c2", "\u03a3", "a\nb", "a.b")
+
+
+def job_unicode():
+    """Agreement clause only: on wildcard-free paths over sibling-unique names strict glob returns the node get returns
+    (or raises the same error class), relaxed glob is empty exactly when relaxed get is None - for names outside ASCII,
+    where 'case-insensitively' has more than one possible meaning and the statement fixes none of them."""
+    import anytree
+
+    t = core.Tally()
+
+    def variants(z):
+        return sorted({z, z.upper(), z.lower(), z.casefold()})
+
+    def run():
+        for w in UNI_POOL[:6] + ("r",):
+            for x in UNI_POOL:
+                one_tree(w, x)
+                t.c["states"] += 1
+                t.obs(("unicode", w, x, t.c["nontrivial"]))
+
+    def one_tree(w, x):
+        if True:
+            if True:
+                root = anytree.Node(w)
+                child = anytree.Node(x, parent=root)
+                leaf = anytree.Node("leaf", parent=child)
+                lab = {id(root): 0, id(child): 1, id(leaf): 2}
+                paths = []
+                for z in UNI_POOL:
+                    paths += variants(z)
+                paths = sorted(set(paths))
+                paths += ["/" + v + "/" + z for v in variants(w) for z in variants(x)] + [z + "/leaf" for z in variants(x)] + ["/" + v for v in variants(x)]
+                for ic in (False, True):
+                    for rx in (False, True):
+                        r = anytree.Resolver("name", ignorecase=ic, relax=rx)
+                        for path in paths:
+                            for start in (root, leaf) if path.startswith("/") else (root,):
+                                try:
+                                    g = r.get(start, path)
+                                    g = ("node", lab[id(g)]) if g is not None else ("none", None)
+                                except anytree.ResolverError as exc:
+                                    g = ("error", type(exc).__name__)
+                                try:
+                                    s_ = r.glob(start, path)
+                                    s_ = ("node", lab[id(s_[0])]) if len(s_) == 1 else (("none", None) if not s_ else ("many", len(s_)))
+                                except anytree.ResolverError as exc:
+                                    s_ = ("error", type(exc).__name__)
+                                t.c["evaluations"] += 1
+                                t.c["non_ascii_agreement_checks"] += 1
+                                if g[0] == "node":
+                                    t.c["nontrivial"] += 1
+                                if g != s_:
+                                    t.violation("C08: glob(%r) and get(%r) disagree on a wildcard-free path over sibling-unique names "
+                                                "(ignorecase=%s, relax=%s): get %s, glob %s" % (path, path, ic, rx, g, s_),
+                                                {"engine": "E2", "module": MOD, "part": "unicode", "root": w, "child": x, "path": path,
+                                                 "ignorecase": ic, "relax": rx, "get": g, "glob": s_})
+                                    return
+    core.guard(t, "C08", {"engine": "E2", "module": MOD, "part": "unicode"}, run, _limit=120)
+    return t
+
+
 def job(items, reconf=False):
     t = core.Tally()
     RECONF[0] = reconf
@@ -386,6 +451,8 @@ def _tup(x):
 
 def replay(c):
     t = core.Tally()
+    if c.get("part") == "unicode":
+        return [v["why"] for v in job_unicode().violations]
     if c.get("part") == "cache":
         import anytree
 
@@ -445,7 +512,7 @@ def run(tier):
     t = core.Tally()
     pool = core.Pool(0)
     try:
-        pool.run([(MOD, "job", {"items": c}) for c in core.chunks(items[::-1], core.NPROC * 12)] + [("mc.capacity", "job", {"pid": "C08"}), ("mc.positional", "job", {"pid": "C08"})], into=t)
+        pool.run([(MOD, "job", {"items": c}) for c in core.chunks(items[::-1], core.NPROC * 12)] + [("mc.capacity", "job", {"pid": "C08"}), ("mc.positional", "job", {"pid": "C08"}), (MOD, "job_unicode", {})], into=t)
         sem_states = t.c["states"]
         events = pool.call(MOD, "e3_events")
         depth = 4 if tier == "quick" else 5
@@ -468,7 +535,7 @@ def run(tier):
         "bounds": {"semantic_trees": len(items), "semantic_states": sem_states, "history_depth": depth, "cache_states": t.c["states"] - sem_states},
     }
     return {"tally": t, "coverage": cov,
-            "guards": ("positional_calls", "reconfigured_resolver_trees", "capacity_checks", "nontrivial", "many_matches", "strict_raises:ChildResolverError", "strict_raises:RootResolverError",
+            "guards": ("non_ascii_agreement_checks", "positional_calls", "reconfigured_resolver_trees", "capacity_checks", "nontrivial", "many_matches", "strict_raises:ChildResolverError", "strict_raises:RootResolverError",
                        "strict_raises:ResolverError", "get_agreement_checked", "calls_after_fill", "calls_after_colliding_pattern",
                        "states_with_full_cache", "merged_states"),
             "assumptions": ["'**' directly after the leading separator is excluded (the statement does not say whether the root "
